@@ -160,6 +160,11 @@ type IndexedColumn struct {
 
 func newIndexColumn(e Expression, collate string, sort SortOrder) IndexedColumn {
 	col := AsColumn(e)
+	if s, ok := e.(string); ok {
+		// SQLite takes a string literal in this place as a column name
+		// (CREATE INDEX i ON t ('a') indexes column a).
+		col = s
+	}
 	ex := ""
 	if col == "" {
 		ex = AsString(e)
